@@ -1586,6 +1586,8 @@ class Interp(object):
             return Builtin(e.id)
         if e.id in ('True', 'False', 'None'):
             return Const({'True': True, 'False': False, 'None': None}[e.id])
+        if e.id in ('__name__', '__package__', '__file__') and m is not None:
+            return Const({'__name__': m.name, '__package__': m.package(), '__file__': m.path}[e.id])
         raise Raised(Exc('NameError', e.id))
 
     def x_Attribute(self, e, fr):
